@@ -412,6 +412,24 @@ def parseGroups (s : String) : List (Nat × Int × String) :=
         | _, _ => none
       | _ => none
 
+/-- `bufsize:8;items:4;metrics:1;ignore:0;cleanup:50;counters:9;max:7;hasher;keybuilder;coster;validator;callback` -/
+def parseSetters (s : String) : Option (List Setter) :=
+  if s == "-" || s == "" then some [] else (s.splitOn ";").mapM fun t =>
+    match t.splitOn ":" with
+    | ["bufsize", v] => v.toNat?.map Setter.bufferSize
+    | ["items", v] => v.toNat?.map Setter.bufferItems
+    | ["metrics", v] => v.toNat?.map fun n => Setter.metrics (n == 1)
+    | ["ignore", v] => v.toNat?.map fun n => Setter.ignoreInternal (n == 1)
+    | ["cleanup", v] => v.toNat?.map Setter.cleanup
+    | ["counters", v] => v.toNat?.map Setter.numCounters
+    | ["max", v] => v.toInt?.map Setter.maxCost
+    | ["hasher"] => some (Setter.hasher 1)
+    | ["keybuilder"] => some (Setter.keyBuilder 1)
+    | ["coster"] => some (Setter.coster 1)
+    | ["validator"] => some (Setter.validator 1)
+    | ["callback"] => some (Setter.callback 1)
+    | _ => none
+
 partial def stepCache (st : CacheSt) (tl : Tally) (act : String) (ans : String) : CacheSt × Tally :=
   let a := splitWs act
   let r := kvs (splitWs ans)
@@ -443,20 +461,36 @@ partial def stepCache (st : CacheSt) (tl : Tally) (act : String) (ans : String) 
         if want == got then tl else
           props.foldl (fun tl p => tl.monitorAt p s!"the builder was given {what} = {want} but the cache was built with {got} ({order})")
             (tl.divergeAt s!"c.init.{what}" want got)
+      -- when the harness reports the chain of builder calls, what is expected comes from the builder model
+      -- (`buildWith`, Props/C20 `build_uses_last_settings`): the last call for each field wins
+      let built : Option Effective := match (lookup kv "setters").bind parseSetters, getNat kv "new_counters", getInt kv "new_max" with
+        | some calls, some n0, some m0 => match buildWith n0 m0 calls with
+          | .ok e => some e
+          | .error _ => none
+        | _, _, _ => none
+      let tl := match (lookup kv "setters"), built with
+        | some _, none => tl.monitorAt "C20" s!"the builder model rejects this chain of calls (or it does not parse), yet a cache was built: {(lookup kv "setters").getD ""}"
+        | _, _ => tl
+      let ign := match built with | some e => (if e.ignoreInternalCost then 1 else 0) | none => ign
+      let rc := match built with | some e => e.ringCap | none => rc
+      let me := match built with | some e => (if e.metricsOn then 1 else 0) | none => me
+      let tl := match built, getNat kv "cfgbuf" with
+        | some e, some want => if e.bufCap == want then tl else tl.guardAt s!"harness: configured buffer {want} but the chain of calls gives {e.bufCap}"
+        | _, _ => tl
       let tl := mism tl ["C16", "C01", "C07", "C04", "C20"] "ignore_internal_cost" (toString ign) (toString effIgn)
       let tl := mism tl ["C15", "C20"] "buffer_items" (toString rc) (toString effRc)
       let tl := mism tl ["C17", "C20"] "metrics" (toString me) (toString effMe)
-      let tl := match getNat kv "counters", getNat kv "eff_counters" with
+      let tl := match (built.map (·.numCounters)).orElse (fun _ => getNat kv "counters"), getNat kv "eff_counters" with
         | some want, some got => mism tl ["C13", "C15", "C07", "C20"] "num_counters" (toString want) (toString got)
         | _, _ => tl
-      let tl := match getNat kv "cfgcleanup", getNat kv "eff_cleanup" with
+      let tl := match (built.map (·.cleanupNs)).orElse (fun _ => getNat kv "cfgcleanup"), getNat kv "eff_cleanup" with
         | some want, some got => mism tl ["C05", "C20"] "cleanup_duration_ns" (toString want) (toString got)
         | _, _ => tl
-      let tl := match getInt kv "cfgmax", some mx with
+      let tl := match (built.map (·.maxCost)).orElse (fun _ => getInt kv "cfgmax"), some mx with
         | some want, some got => mism tl ["C01", "C20"] "max_cost" (toString want) (toString got)
         | _, _ => tl
       -- C20: the cache was built with the buffer size that was asked for
-      let tl := match getNat kv "cfgbuf" with
+      let tl := match (built.map (·.bufCap)).orElse (fun _ => getNat kv "cfgbuf") with
         | some want => if want == bc then tl else
             ["C20", "C10", "C04"].foldl (fun tl p => tl.monitorAt p
               s!"the builder was given insert buffer size {want} but the cache was built with {bc} (setter order: late={(lookup kv "late").getD "?"}): inserts are dropped and wait() reports a full buffer long before the configured buffer is full")
